@@ -27,12 +27,17 @@ structure Task where
   id : Nat
 deriving DecidableEq, Repr, Inhabited
 
-/-- `x` is a minimum of the heap w.r.t. `Ord for Task` (compares `when` only). -/
-def isMin (h : List Task) (x : Task) : Bool := h.all (fun y => decide (x.when ≤ y.when))
+/-- the least `when` in the heap (0 for the empty heap) -/
+def minWhen : List Task → Nat
+  | [] => 0
+  | [x] => x.when
+  | x :: y :: ys => min x.when (minWhen (y :: ys))
 
-/-- `BinaryHeap<Reverse<Task>>::peek`+`pop`: *some* minimal element (the `k`-th of them, `k` from the oracle) and the rest. -/
+/-- `BinaryHeap<Reverse<Task>>::peek`+`pop`: *some* minimal element w.r.t. `Ord for Task` (compares `when` only) —
+the `k`-th of them, `k` from the oracle — and the rest. -/
 def popMin (k : Nat) (h : List Task) : Option (Task × List Task) :=
-  let c := h.filter (isMin h)
+  let mw := minWhen h
+  let c := h.filter (fun x => x.when == mw)
   match c[k % c.length]? with
   | some x => some (x, h.erase x)
   | none => none
